@@ -22,6 +22,10 @@ type C06Case struct {
 	Body     string              `json:"body"`
 	Multi    bool                `json:"multi"`
 	ExclRO   bool                `json:"excl_ro"`
+	// Go-side configuration only: default-setting left on (the library's default).  Such cases carry
+	// defaults on read-only properties only, which a request reading must not apply (and does not
+	// validate), so the model - which does not inject defaults - answers for them unchanged.
+	Defaults bool `json:"defaults,omitempty"`
 }
 
 type C06Obs struct {
@@ -61,7 +65,7 @@ func runC06(c *C06Case) C06Obs {
 		req.Header.Set("Content-Type", c.CT)
 	}
 	in := &openapi3filter.RequestValidationInput{Request: req, Route: route,
-		Options: &openapi3filter.Options{MultiError: c.Multi, ExcludeReadOnlyValidations: c.ExclRO, SkipSettingDefaults: true}}
+		Options: &openapi3filter.Options{MultiError: c.Multi, ExcludeReadOnlyValidations: c.ExclRO, SkipSettingDefaults: !c.Defaults}}
 	var err error
 	if p := catchPanic(func() { err = openapi3filter.ValidateRequestBody(context.Background(), in, rb) }); p != nil {
 		o.Panic = fmt.Sprint(p)
@@ -151,6 +155,26 @@ func c06BodySchema(r *Rng) *GSchema {
 	return g
 }
 
+// roDefaults puts a default on read-only properties (at any depth below properties / items)
+func roDefaults(r *Rng, g *GSchema) {
+	if g == nil {
+		return
+	}
+	for _, k := range sortedKeys(g.Props) {
+		p := g.Props[k]
+		if p == nil {
+			continue
+		}
+		if p.ReadOnly && r.Chance(80) {
+			if v := valueFor(r, p, 1); v != nil {
+				p.Default = v
+			}
+		}
+		roDefaults(r, p)
+	}
+	roDefaults(r, g.Items)
+}
+
 func c06Random(r *Rng) C06Case {
 	c := C06Case{Required: r.Bool(), Multi: r.Chance(30), ExclRO: r.Chance(30)}
 	if r.Chance(92) {
@@ -161,6 +185,12 @@ func c06Random(r *Rng) C06Case {
 		}
 	}
 	c.CT = Pick(r, c08CTs)
+	if !c.ExclRO && r.Chance(30) {
+		c.Defaults = true
+		for _, ck := range sortedKeys(c.Content) {
+			roDefaults(r, c.Content[ck])
+		}
+	}
 	var target *GSchema
 	for _, ck := range sortedKeys(c.Content) {
 		if g := c.Content[ck]; g != nil {
@@ -230,6 +260,19 @@ func c06Directed() []C06Case {
 	add("application/json; charset=utf-8", `{"name":1}`, func(c *C06Case) {
 		c.Content = map[string]*GSchema{"application/json; charset=utf-8": nil, "application/json": obj}
 	})
+	// default-setting on: a read-only property with a default is neither filled in nor demanded
+	objD := &GSchema{HasTypes: true, Types: []string{"object"}, Required: []string{"id", "name"}, Props: map[string]*GSchema{
+		"id": {HasTypes: true, Types: []string{"integer"}, ReadOnly: true, Default: 7.0}, "name": {HasTypes: true, Types: []string{"string"}},
+		"st": {HasTypes: true, Types: []string{"string"}, ReadOnly: true, Default: "new"}}}
+	for _, body := range []string{`{"name":"n"}`, `{"name":"n","id":1}`, `{"name":"n","st":"x"}`, `{}`, `{"name":1}`} {
+		for _, multi := range []bool{false, true} {
+			body, multi := body, multi
+			add("application/json", body, func(c *C06Case) {
+				c.Content = map[string]*GSchema{"application/json": objD}
+				c.Defaults, c.Multi = true, multi
+			})
+		}
+	}
 	return out
 }
 
